@@ -78,4 +78,38 @@ def dictItem (d : List (Str × Nat)) (k : Option Str) : Py Int :=
   | some v => .ok v
   | none => .error .KeyError
 
+/-! ### values of a `Union[A, B]` annotation (Lean sums), lists of ints, dicts with `int` keys -/
+
+/-- iterating over a value that is a list of `α` or a list of `β` -/
+def sumItems {α β} : List α ⊕ List β → List (α ⊕ β)
+  | .inl l => l.map .inl
+  | .inr l => l.map .inr
+
+/-- `l.index(v)` on a list of ints (`ValueError` if absent) -/
+def listIndexOf (l : List Int) (v : Int) : Py Int :=
+  match l.findIdx? (· == v) with
+  | some i => .ok i
+  | none => .error .ValueError
+
+/-- `x.index(v)` where `x` is an int (no such attribute) or a list of ints -/
+def sumIndexOf (x : Int ⊕ List Int) (v : Int) : Py Int :=
+  match x with
+  | .inl _ => .error .AttributeError
+  | .inr l => listIndexOf l v
+
+/-- `d[k]` on a dict with `int` keys -/
+def dictItemI {β} (d : List (Int × β)) (k : Int) : Py β := getKey d k
+
+/-- `d[k]` on a dict with `int` keys where `k` is an int or a list (unhashable: `TypeError`) -/
+def dictItemSum {β} (d : List (Int × β)) (k : Int ⊕ List Int) : Py β :=
+  match k with
+  | .inl i => getKey d i
+  | .inr _ => .error .TypeError
+
+/-- `seq[k]` where `k` is an int or a list (`TypeError`: list indices must be integers) -/
+def indexSum {α} (l : List α) (k : Int ⊕ List Int) : Py α :=
+  match k with
+  | .inl i => index l i
+  | .inr _ => .error .TypeError
+
 end SV.PyRt
